@@ -112,8 +112,12 @@ CLAIMED = {
             "blackboard, every history of ticks / interrupts / pokes of other variables (C18b: C18_pickup_history - a task "
             "whose flag is set is not entered, tasks are entered in order with all earlier flags set, flags are set only by a "
             "task's SUCCESS, never cleared before the root's SUCCESS, all cleared and all slots SUCCESS on it; "
-            "C18_pickup_isPickUp: the constructor builds such an instance for every task list); either_or for n >= 3 "
-            "options over histories is carried by correspondence + oracle: PARTIAL", P,
+            "C18_pickup_isPickUp: the constructor builds such an instance for every task list); either_or as a WHOLE, any "
+            "number of options, over every history incl. pokes of the condition variables (C18c: fresh tick = parity of "
+            "the true conditions, exactly-one -> exactly that subtree with its status mirrored, none/two -> FAILURE and "
+            "no subtree, missing variable -> FAILURE; RUNNING tick never re-evaluates the conditions, leaves the "
+            "blackboard alone and re-ticks only the chosen subtree unless another flag is set (K3 only); "
+            "C18_eo_history(_exclusive), C18_eo_isEitherOr). PARTIAL only in what K3 refutes (several true conditions)", P,
             BT + "Known finding K3 (either_or with an odd number >= 3 of true conditions)."),
     "C19": ("theorems: for every node of every reachable state tip = None iff status INVALID, otherwise the tip is a "
             "non-INVALID node of that subtree; in sequence/selector trees over leaves the tip after a tick is the last "
